@@ -9,7 +9,8 @@ RULE = ("parameter trees (sequence/choice nesting, every optional marking, incl.
         "vectors (every positional prefix with values/None, every keyword subset incl. duplicates and unknown "
         "names) x extraArgumentErrors; small trees exhaustively, larger sampled; non-trivial = the tree has a "
         "choice or the vector is not the plain all-positional call; distinct = distinct (tree, vector, flag)"
-        ' ; plus: bad calls with unwrapping disabled, extraArgumentErrors switched on a client in use, unknown keywords with None values and reserved-looking names; rejected calls under faults=False and with an injected reply; wrapper types carrying an attribute (dict key _id)')
+        ' ; plus: bad calls with unwrapping disabled, extraArgumentErrors switched on a client in use, unknown keywords with None values and reserved-looking names; rejected calls under faults=False and with an injected reply; wrapper types carrying an attribute (dict key _id)'
+        ' ; a clone switching the checking off leaves the original as it was')
 ASSUMPTIONS = ["ancestry items are compared by identity (`is`), modelled as unique ids",
                "Python dict preserves keyword insertion order (first leftover keyword is reported)"]
 PARTIAL = [
